@@ -52,18 +52,6 @@ def lemmas(E):
                         out.append(("frame::%s_written_only_by_contracted_functions(%s)" % (field, qn), [],
                                     z3.BoolVal(qn.rsplit(".", 1)[-1] in allowed)))
         out.append(("frame::%s_has_writers" % field, [], z3.BoolVal(found >= 2)))
-    # window is handed back only where the application has taken bytes out of a buffer (recv, recv_stderr) or where data
-    # is discarded on arrival (_feed_extended, unknown extended type): _check_add_window has no other caller
-    callers = set()
-    for qn, fi in sorted(E.src.funcs.items()):
-        if not qn.startswith("paramiko.") or "::" in qn:
-            continue
-        for n in ast.walk(fi.node):
-            if isinstance(n, ast.Call) and isinstance(n.func, ast.Attribute) and n.func.attr == "_check_add_window":
-                callers.add(qn.rsplit(".", 1)[-1])
-                out.append(("frame::window_handed_back_only_for_consumed_or_discarded_bytes(%s)" % qn, [],
-                            z3.BoolVal(qn.rsplit(".", 1)[-1] in ("recv", "recv_stderr", "_feed_extended"))))
-    out.append(("frame::check_add_window_has_callers", [], z3.BoolVal(len(callers) >= 2)))
     return out
 
 
@@ -74,9 +62,8 @@ LEVEL_TEXT = ("Proof with the monitor rule on Channel.lock (every access to the 
               "max_packet-64) and debits exactly n; _send puts exactly s[:n] into the one message it sends; _window_adjust "
               "credits exactly the peer's uint32; _set_remote_channel honours the peer's max packet size when >= 4096; "
               "_check_add_window never returns more than was consumed and recv/recv_stderr send exactly that in "
-              "WINDOW_ADJUST; set_combine_stderr, which moves buffered data between the two receive buffers, hands no window back, "
-              "and _check_add_window has no caller besides recv, recv_stderr and the discard path of _feed_extended "
-              "(structural obligation). Holds for every interleaving by the monitor rule; counters have no other writers (frame scan).")
+              "WINDOW_ADJUST; set_combine_stderr, which moves buffered data between the two receive buffers, hands no window back "
+              "(ghost count of _check_add_window calls and of messages handed to the transport unchanged). Holds for every interleaving by the monitor rule; counters have no other writers (frame scan).")
 LEVEL_NOTE = ("Trusted: threading.Lock/Condition semantics (mutual exclusion, wait releases and reacquires atomically). "
               "_set_remote_channel/_set_window write without the lock (before the channel is handed out) - listed as allowed "
               "unlocked accesses. The debited message is sent after the lock is released (order on the wire vs EOF/CLOSE is "
